@@ -254,9 +254,17 @@ static void main_case(int mode) {
   if (kind == 4 && chance(70)) {            /* cubic coordinates make the eliminations expensive: mostly replace by a rational */
     lp_value_destruct(&vals[0]); val_rat(&vals[0], rnd_in(-3, 3), 1 + rnd(2));
   }
+  lp_polynomial_t* p = degenerate ? degenerate_poly() : main_poly();
+  /* keep the eliminations affordable for the library under the sanitizers: deg_y(p) times the degrees of the assigned algebraic
+     numbers bounds the degree of the eliminant; beyond 16 the last irrational coordinates are replaced by rationals */
+  for (int i = nvals - 1; i >= 0; --i) {
+    size_t cost = lp_polynomial_degree(p);
+    for (int j = 0; j < nvals; ++j) if (vals[j].type == LP_VALUE_ALGEBRAIC && vals[j].value.a.f) cost *= lp_upolynomial_degree(vals[j].value.a.f);
+    if (cost <= 16) break;
+    if (vals[i].type == LP_VALUE_ALGEBRAIC && vals[i].value.a.f) { lp_value_destruct(&vals[i]); val_rat(&vals[i], rnd_in(-3, 3), 1 + rnd(2)); }
+  }
   M = lp_assignment_new(hp_db);
   set_vals();
-  lp_polynomial_t* p = degenerate ? degenerate_poly() : main_poly();
   lp_polynomial_set_external(p);
   if (mode == 1) {
     size_t d = lp_polynomial_degree(p), n = 0;
